@@ -141,6 +141,11 @@ GENERATED_REPORTS = [  # configurations whose reports contain lines no stored re
 ]
 
 
+# labels that only reports of earlier versions carry (no report writer of the pinned tree prints them); every other result-schema field has to be
+# extracted from a real report - a field renamed in client and schema but not in the writer is extractable from no report
+LEGACY_FIELDS = {('OPERATING AND MAINTENANCE COSTS (M$/yr)', 'Average annual pumping costs'), ('SUMMARY OF RESULTS', 'Direct-Use Cooling Breakeven Price')}
+
+
 def result_fields(arg):
     """child: which (category, field) pairs of the result schema does the client extract from at least one report?"""
     schema, reports = arg
@@ -177,7 +182,7 @@ def result_fields(arg):
         ttext = f.read()
     for cat, spec in schema.items():
         for fld in spec.get('properties', {}):
-            if (cat, fld) in found:
+            if (cat, fld) in found or (cat, fld) not in LEGACY_FIELDS:
                 continue
             sp = os.path.join(tempfile.gettempdir(), 'synthetic.out')
             with open(sp, 'w') as f:
@@ -581,7 +586,7 @@ def run(tier, seed, budget=None):
                 'run that leaves the parameter out vs the run that supplies the schema default - same acceptance, same report), and every '
                 'result-schema field against all stored reports')
     col.assumptions = ['parameters redefined with different defaults/bounds by specialised modules are excluded from the bound/default clause (listed in evidence)',
-                       'result-field extractability is judged on the stored reports of tests/ plus five generated reports; fields no current report prints are accepted if the client extracts them from a line carrying that label (listed in evidence)']
+                       'result-field extractability is judged on the stored reports of tests/ plus five generated reports; two named legacy fields no current report prints are accepted if the client extracts them from a line carrying that label (listed in evidence)']
     col.extra['reachable_class_tuples'] = len(class_tuples)
     col.extra['class_tuple_examples'] = [{'classes': k, 'constructions': v['n'], 'example_selectors': v['example']} for k, v in list(class_tuples.items())[:8]]
     col.samples = col.samples[:2] + [{'reachable_class_tuple': k, 'constructions': v['n'], 'example_selectors': v['example']} for k, v in list(class_tuples.items())[:3]]
